@@ -324,12 +324,16 @@ func c19Run(t *testing.T, cj []byte, res *vfResult) {
 		vfWaitFor(wait, func() bool {
 			for ci, st := range states {
 				ch := c.Channels[ci]
+				st.mu.Lock()
+				n := len(st.recv)
+				announced := st.remote != nil
+				st.mu.Unlock()
+				if !announced {
+					return false // the in-band open message is reliable whatever the channel's own reliability
+				}
 				if ch.MaxRtx != nil || ch.MaxLifeMs != nil {
 					continue
 				}
-				st.mu.Lock()
-				n := len(st.recv)
-				st.mu.Unlock()
 				if n < len(st.sent) {
 					return false
 				}
@@ -406,9 +410,17 @@ func c19Check(res *vfResult, ch c19Chan, st *c19State, final bool) {
 	for ri, r := range recv {
 		idx := -1
 		for si, s := range st.sent {
-			if !used[si] && bytes.Equal(s, r.data) {
+			if !used[si] && bytes.Equal(s, r.data) && st.sentText[si] == r.text {
 				idx = si
 				break
+			}
+		}
+		if idx < 0 { // same bytes with the other flag => the flag changed (empty payloads are not unique)
+			for si, s := range st.sent {
+				if !used[si] && bytes.Equal(s, r.data) {
+					idx = si
+					break
+				}
 			}
 		}
 		if idx < 0 {
